@@ -414,3 +414,85 @@ func Recover(f func()) (pan any) {
 	f()
 	return nil
 }
+
+// Shrink is a small delta-debugging minimiser: it returns a sub-list of ops on
+// which fails still returns true (fails(ops) is assumed true). Bounded effort.
+func Shrink(ops []string, fails func([]string) bool) []string {
+	cur := append([]string{}, ops...)
+	budget := 400
+	// drop the tail after the failing point first
+	for n := 2; len(cur) >= 2; {
+		chunk := (len(cur) + n - 1) / n
+		reduced := false
+		for i := 0; i < len(cur) && budget > 0; i += chunk {
+			j := i + chunk
+			if j > len(cur) {
+				j = len(cur)
+			}
+			cand := append(append([]string{}, cur[:i]...), cur[j:]...)
+			budget--
+			if len(cand) > 0 && fails(cand) {
+				cur = cand
+				reduced = true
+				if n > 2 {
+					n--
+				}
+				break
+			}
+		}
+		if budget <= 0 {
+			break
+		}
+		if !reduced {
+			if chunk == 1 {
+				break
+			}
+			n *= 2
+			if n > len(cur) {
+				n = len(cur)
+			}
+		}
+	}
+	return cur
+}
+
+// Quiet returns a throw-away report (for re-executions during shrinking).
+func Quiet() *Report { return NewReport("shrink", "") }
+
+// HasSpecFail tells whether key was reported.
+func (r *Report) HasSpecFail(key string) bool {
+	r.mu.Lock()
+	defer r.mu.Unlock()
+	return r.SpecFailN[key] > 0
+}
+
+// ReplaceSpecFailOps swaps the witness of a key for a smaller one.
+func (r *Report) ReplaceSpecFailOps(key string, ops []string) {
+	r.mu.Lock()
+	defer r.mu.Unlock()
+	for i := range r.SpecFailures {
+		if r.SpecFailures[i].Key == key && len(ops) < len(r.SpecFailures[i].Ops) {
+			r.SpecFailures[i].Ops = append([]string{}, ops...)
+		}
+	}
+}
+
+// ReplaceMismatchOps swaps the first mismatch's op list for a smaller one.
+func (r *Report) ReplaceMismatch(i int, ops []string, impl, mdl string) {
+	r.mu.Lock()
+	defer r.mu.Unlock()
+	if i < len(r.Mismatches) {
+		r.Mismatches[i].Ops = append([]string{}, ops...)
+		r.Mismatches[i].Impl, r.Mismatches[i].Model = impl, mdl
+	}
+}
+
+func (r *Report) SpecFailKeys() []string {
+	r.mu.Lock()
+	defer r.mu.Unlock()
+	var k []string
+	for _, s := range r.SpecFailures {
+		k = append(k, s.Key)
+	}
+	return k
+}
